@@ -142,5 +142,5 @@ def parts(tier):
     return [
         Part("enum-table-and-sizes", "enum", check=check, cases=enum_cases, exhaustive=True, shards={"quick": 4, "thorough": 16}),
         Part("hyp-laws-user", "hyp", check=check, strategy=lambda t: hyp_case(60 if t == "quick" else 200),
-             examples={"quick": 3200, "thorough": 32000}, shards={"quick": 8, "thorough": 16}),
+             examples={"quick": 9600, "thorough": 64000}, shards={"quick": 8, "thorough": 16}),
     ]
